@@ -553,12 +553,6 @@ Section Erase.
     induction l as [|y l IH]; simpl; [reflexivity|]. rewrite E_py_eq, IH. reflexivity.
   Qed.
 
-  Lemma E_py_list_index l x n : py_list_index (List.map E l) (E x) n = py_list_index l x n.
-  Proof.
-    revert n. induction l as [|y l IH]; intro n; simpl; [reflexivity|].
-    rewrite E_py_eq. destruct (py_eq y x) as [[|]| | |]; try reflexivity. apply IH.
-  Qed.
-
   Ltac by_py_eq :=
     match goal with |- py_eq _ _ = py_eq ?u ?w => exact (E_py_eq u w) end.
 
@@ -816,6 +810,15 @@ Section Erase.
   Qed.
 
   (** uniq *)
+  Lemma E_same_obj a b : same_obj (E a) (E b) = same_obj a b.
+  Proof. destruct a; destruct b; reflexivity. Qed.
+
+  Lemma E_liq_list_contains l x : liq_list_contains (List.map E l) (E x) = liq_list_contains l x.
+  Proof.
+    induction l as [|y l IH]; [reflexivity|].
+    cbn [List.map liq_list_contains]. rewrite E_same_obj, E_liq_eq, IH. reflexivity.
+  Qed.
+
   Definition Ekey (p : val * option val) : val * option val := (E (fst p), option_map E (snd p)).
 
   Lemma E_uniq_keys l : forall m keys,
@@ -823,8 +826,8 @@ Section Erase.
   Proof.
     induction l as [|[obj [k|]] l IH]; intros m keys; [reflexivity| |].
     - cbn [List.map uniq_keys Ekey fst snd option_map].
-      rewrite E_py_list_contains.
-      destruct (py_list_contains keys k) as [[|]| | |]; cbn [bind]; try reflexivity.
+      rewrite E_liq_list_contains.
+      destruct (liq_list_contains keys k) as [[|]| | |]; cbn [bind]; try reflexivity.
       + apply IH.
       + change (List.map E keys ++ [E k]) with (List.map E keys ++ List.map E [k]).
         rewrite <- map_app, IH, rmap_rmap. destruct (uniq_keys l m (keys ++ [k])); reflexivity.
@@ -839,8 +842,8 @@ Section Erase.
     induction l as [|obj l IH]; intros m keys; [reflexivity|].
     cbn [List.map uniq_prop]. rewrite E_py_getitem.
     destruct (py_getitem false obj k) as [item| |[]|]; cbn [rmap]; try reflexivity.
-    - rewrite E_py_list_contains.
-      destruct (py_list_contains keys item) as [[|]| | |]; cbn [bind]; try reflexivity.
+    - rewrite E_liq_list_contains.
+      destruct (liq_list_contains keys item) as [[|]| | |]; cbn [bind]; try reflexivity.
       + apply IH.
       + change (List.map E keys ++ [E item]) with (List.map E keys ++ List.map E [item]).
         rewrite <- map_app, IH, rmap_rmap. destruct (uniq_prop k l m (keys ++ [item])); reflexivity.
@@ -850,21 +853,19 @@ Section Erase.
       rewrite IH, rmap_rmap. destruct (uniq_prop k l true keys); reflexivity.
   Qed.
 
-  Lemma E_uniq_plain l : uniq_plain (List.map E l) = rmap (List.map E) (uniq_plain l).
+  Lemma E_uniq_items l : forall items,
+    uniq_items (List.map E l) (List.map E items) = rmap (List.map E) (uniq_items l items).
   Proof.
-    unfold uniq_plain. rewrite map_length.
-    set (ix := seq 0 (List.length l)).
-    assert (HC : combine (List.map E l) ix
-                 = List.map (fun p : val * nat => (E (fst p), snd p)) (combine l ix)).
-    { clearbody ix. revert ix. induction l as [|x l IH]; intros [|i ix]; try reflexivity.
-      cbn [List.map combine fst snd]. rewrite IH. reflexivity. }
-    rewrite HC.
-    rewrite (filterM_comm (fun p : val * nat => (E (fst p), snd p))
-               (fun p : val * nat => do ix0 <- py_list_index l (fst p) 0;;
-                  Ok (match ix0 with Some j => Nat.eqb j (snd p) | None => false end))).
-    - rewrite !rmap_rmap. apply rmap_ext. intro r. rewrite !map_map. reflexivity.
-    - intros [x i]. cbn [fst snd]. rewrite E_py_list_index. reflexivity.
+    induction l as [|obj l IH]; intro items; [reflexivity|].
+    cbn [List.map uniq_items]. rewrite E_liq_list_contains.
+    destruct (liq_list_contains items obj) as [[|]| | |]; cbn [bind]; try reflexivity.
+    - apply IH.
+    - change (List.map E items ++ [E obj]) with (List.map E items ++ List.map E [obj]).
+      rewrite <- map_app, IH, rmap_rmap. destruct (uniq_items l (items ++ [obj])); reflexivity.
   Qed.
+
+  Lemma E_uniq_plain l : uniq_plain (List.map E l) = rmap (List.map E) (uniq_plain l).
+  Proof. exact (E_uniq_items l []). Qed.
 
   Lemma E_decimal_arg0 v : decimal_arg0 (E v) = decimal_arg0 v.
   Proof. destruct v; reflexivity. Qed.
@@ -1109,7 +1110,7 @@ Section Erase.
       destruct args as [|[e|kw e|ps body] [|x2 t]]; try reflexivity.
       + rewrite E_sequence_arg, filter_map_E; [reflexivity|].
         intro x. rewrite E_is_nil. reflexivity.
-      + ev e. rewrite E_is_nil. destruct (is_nil k).
+      + ev e. rewrite E_is_nil, E_is_undef. destruct (is_nil k || is_undef k)%bool.
         * rewrite E_sequence_arg, filter_map_E; [reflexivity|].
           intro x. rewrite E_is_nil. reflexivity.
         * apply H_filter. intro x. apply P_compact_key.
@@ -1119,7 +1120,7 @@ Section Erase.
     - (* FUniq *)
       destruct args as [|[e|kw e|ps body] [|x2 t]]; try reflexivity.
       + rewrite E_sequence_arg, E_uniq_plain, !rmap_rmap. reflexivity.
-      + ev e. rewrite E_is_nil. destruct (is_nil k).
+      + ev e. rewrite E_is_nil, E_is_undef. destruct (is_nil k || is_undef k)%bool.
         * rewrite E_sequence_arg, E_uniq_plain, !rmap_rmap. reflexivity.
         * rewrite E_sequence_arg.
           rewrite (E_uniq_prop k (sequence_arg left) false [] :
@@ -1209,7 +1210,7 @@ Section Erase.
       + rewrite E_sequence_arg, (mapM_comm0 E to_liquid_string to_liquid_string)
           by apply E_to_liquid_string.
         destruct (mapM to_liquid_string (sequence_arg left)); reflexivity.
-      + ev e. rewrite E_py_str. destruct (py_str k); cbn [rmap bind]; try reflexivity.
+      + ev e. rewrite E_to_liquid_string. destruct (to_liquid_string k); cbn [rmap bind]; try reflexivity.
         rewrite E_sequence_arg, (mapM_comm0 E to_liquid_string to_liquid_string)
           by apply E_to_liquid_string.
         destruct (mapM to_liquid_string (sequence_arg left)); reflexivity.
